@@ -84,7 +84,14 @@ def run_parts(manifest):
     decl = [x for x in pl if re.match(r"(uint64_t cycle_count = 0|int exitCode = 0)$", x)]
     if len(decl) != 2:
         raise ExtractionError("hextb run(): expected `uint64_t cycle_count = 0; int exitCode = 0;` before the loop, found %r" % pl)
-    stmts = [x for x in pl if x not in decl]
+    # further scalar locals of run() (loop-carried testbench state) become globals of the unit; harnesses that start in
+    # the middle of the loop must treat them as arbitrary
+    extra = []
+    for x in pl:
+        mx = re.fullmatch(r"(bool|int|unsigned|uint64_t|uint32_t|size_t) (\w+) = (false|true|-?\d+)", x)
+        if mx and x not in decl:
+            extra.append((mx.group(1), mx.group(2), mx.group(3)))
+    stmts = [x for x in pl if x not in decl and not any(x.startswith("%s %s =" % (t, n)) for t, n, v in extra)]
     for x in stmts:
         if not re.fullmatch(r"top->(i_rst|i_clk) = [01]|top->eval\(\)", x):
             raise ExtractionError("hextb run(): prologue statement not understood: %r" % x)
@@ -108,15 +115,17 @@ def run_parts(manifest):
     if "top->" in body or "contextp" in body:
         raise ExtractionError("hextb run(): unconverted testbench access left in loop body")
     cond_c = cond.replace("!contextp->gotFinish()", "!tb_gotFinish")
-    manifest.append({"unit": "hextb run", "prologue": stmts, "loop_condition": cond, "dropped": ["trace printing block", "top->final()"]})
+    manifest.append({"unit": "hextb run", "prologue": stmts, "extra_locals": extra, "loop_condition": cond, "dropped": ["trace printing block", "top->final()"]})
     # the loop body in two halves at the system-call sampling `if` (C06 states its relation between them)
-    ms = re.search(r"\n[ \t]*// Handle syscalls\s*\n[ \t]*if \(S\.TOP\.i_clk && S\.TOP\.o_syscall_valid\) \{", body)
-    if not ms:
-        raise ExtractionError("hextb run(): system-call sampling `if` not found in the loop body")
-    head = body[:ms.start()] + "\n}"
-    tail = "{" + body[ms.start():]
+    # split point: directly after the (dropped) trace block that follows eval() and the cycle counter
+    ms = re.search(r"TB_TRACE\(\);", body)
+    if not ms or "Vhex_eval_step(&S);" not in body[:ms.start()] or "handleSyscall(" not in body[ms.end():]:
+        raise ExtractionError("hextb run(): cannot split the loop body between eval() and the system-call sampling")
+    head = body[:ms.end()] + "\n}"
+    tail = "{" + body[ms.end():]
     text = ("static uint64_t cycle_count; static int exitCode; static uint64_t tb_time; static bool tb_break, tb_gotFinish, trace; static size_t maxCycles;\n"
-            "static void tb_prologue(void) {\n  cycle_count = 0; exitCode = 0;\n  %s\n}\n"
+            + "".join("static %s %s; /* local of run() */\n" % (t, n) for t, n, v in extra) +
+            "static void tb_prologue(void) {\n  cycle_count = 0; exitCode = 0;" + "".join(" %s = %s;" % (n, v) for t, n, v in extra) + "\n  %s\n}\n"
             "#define TB_RUN_COND (%s)\n"
             "static void tb_tick_head(void) %s\n"
             "static void tb_tick_tail(void) %s\n"
@@ -124,7 +133,7 @@ def run_parts(manifest):
             "static void tb_tick(void) { tb_tick_head(); tb_tick_tail(); }\n") % (pro_c, cond_c, head, tail)
     # hextb's locals get a tb_ prefix so that the unit can be combined with the extracted hexsim (which has exitCode, trace(), maxCycles)
     text = re.sub(r"\b(exitCode|trace|maxCycles)\b", r"tb_\1", text)
-    return text, stmts
+    return text, {"stmts": stmts, "extra_locals": extra}
 
 
 def load_fn(manifest):
